@@ -235,7 +235,14 @@ def sym_programs(draw):
             op = draw(st.sampled_from(["neg", "abs", "sin", "exp_small"]))
             add({"op": op, "args": [i]}, sh)
         elif kind == "T":
-            add({"op": "T", "args": [i]}, sh[::-1])
+            if len(sh) == 3 and draw(st.booleans()):
+                # a general permutation (3-cycles are not their own inverse)
+                perm = draw(st.sampled_from([[1, 2, 0], [2, 0, 1], [0, 2, 1],
+                                             [1, 0, 2]]))
+                add({"op": "perm", "args": [i], "axes": perm},
+                    [sh[a] for a in perm])
+            else:
+                add({"op": "T", "args": [i]}, sh[::-1])
         elif kind == "roll":
             ax = draw(st.integers(0, len(sh) - 1)) if sh else 0
             if not sh:
@@ -438,6 +445,8 @@ def build_sym(desc, names=None):
             env.append(pt.exp(a[0] * 0.125))
         elif op == "T":
             env.append(a[0].T)
+        elif op == "perm":
+            env.append(pt.transpose(a[0], tuple(nd["axes"])))
         elif op == "roll":
             env.append(pt.roll(a[0], nd["shift"], nd["axis"]))
         elif op == "stack":
@@ -583,6 +592,8 @@ def eval_sym(desc, val):
                 env.append(np.exp(a[0] * 0.125))
             elif op == "T":
                 env.append(a[0].T)
+            elif op == "perm":
+                env.append(np.transpose(a[0], tuple(nd["axes"])))
             elif op == "roll":
                 env.append(np.roll(a[0], nd["shift"], nd["axis"]))
             elif op == "stack":
